@@ -8,6 +8,7 @@ import (
 	"go/types"
 	"net/textproto"
 	"sort"
+	"strconv"
 	"strings"
 
 	"golang.org/x/tools/go/ssa"
@@ -398,6 +399,9 @@ func runC04(c *Ctx) {
 			"the relayed error's code is not the unmodified numeric grpc-status")
 	}
 
+	// ---- C04.6
+	runC04Trailers(c)
+
 	// ---- C04.5
 	c.Rule("C04.5", "the percent-encoding escape set and hex helpers are exactly the gRPC spec's", 4)
 	byteT := types.Typ[types.Uint8]
@@ -498,4 +502,133 @@ func setStr(a map[string]bool) string {
 	}
 	sort.Strings(ks)
 	return "{" + strings.Join(ks, ", ") + "}"
+}
+
+// constBytes evaluates a constant byte-slice / string operand: []byte("x"), []byte{'x', ...}, "x", 'x'.
+func constBytes(v ssa.Value) (string, bool) {
+	switch x := v.(type) {
+	case *ssa.Const:
+		if s, ok := ConstString(x); ok {
+			return s, true
+		}
+		if k, ok := ConstInt(x); ok && k >= 0 && k < 256 {
+			return string([]byte{byte(k)}), true
+		}
+	case *ssa.Convert:
+		return constBytes(x.X)
+	case *ssa.Slice:
+		elems := sliceLiteralElems(x)
+		if len(elems) == 0 {
+			return "", false
+		}
+		// sliceLiteralElems has no order guarantee: order by index address
+		type ie struct {
+			i int64
+			b byte
+		}
+		var out []ie
+		al, _ := x.X.(*ssa.Alloc)
+		if al == nil {
+			return "", false
+		}
+		for _, ref := range *al.Referrers() {
+			ia, ok := ref.(*ssa.IndexAddr)
+			if !ok {
+				continue
+			}
+			idx, ok := ConstInt(ia.Index)
+			if !ok {
+				return "", false
+			}
+			for _, r2 := range *ia.Referrers() {
+				if st, ok := r2.(*ssa.Store); ok && st.Addr == ssa.Value(ia) {
+					k, ok := ConstInt(st.Val)
+					if !ok {
+						return "", false
+					}
+					out = append(out, ie{idx, byte(k)})
+				}
+			}
+		}
+		sort.Slice(out, func(i, j int) bool { return out[i].i < out[j].i })
+		bs := make([]byte, len(out))
+		for i, e := range out {
+			bs[i] = e.b
+		}
+		return string(bs), true
+	}
+	return "", false
+}
+
+// runC04Trailers: C04.6.  gRPC-Web carries the status in an in-body trailer block formatted as
+// HTTP/1 header lines: lines end in CRLF, name and value are separated by the first ':' and
+// whitespace around the value is optional.  The reader must accept exactly that.
+func runC04Trailers(c *Ctx) {
+	p := c.P
+	c.Rule("C04.6", "the gRPC-Web in-body trailer block is read as HTTP/1 header lines: CRLF lines, split at the first ':', value trimmed", 3)
+	gw := p.MustNamed("grpcWebServerProtocol")
+	dec := p.MethodOf(gw, "decodeEndFromMessage")
+	if dec == nil {
+		fatalf("anchor=grpcWebServerProtocol.decodeEndFromMessage not found")
+	}
+	splitFns := []string{"bytes.Cut", "bytes.Index", "bytes.IndexByte", "bytes.SplitN", "bytes.Split", "strings.Cut", "strings.Index", "strings.IndexByte", "strings.SplitN", "strings.Split", "bytes.IndexRune", "strings.IndexRune"}
+	var seps []string
+	nLine, nKV := 0, 0
+	for _, fn := range SortedFuncs(p.Reach(dec)) {
+		if !p.inScope(fn) {
+			continue
+		}
+		for _, call := range Calls(fn) {
+			if !IsCallTo(call, splitFns...) || len(call.Common().Args) < 2 {
+				continue
+			}
+			sep, ok := constBytes(call.Common().Args[1])
+			if !ok {
+				continue
+			}
+			seps = append(seps, sep)
+			switch {
+			case strings.Contains(sep, "\n") || strings.Contains(sep, "\r"):
+				nLine++
+				c.Check(sep == "\r\n" || sep == "\n", "C04.6", FuncName(fn), "line-separator", call.Pos(),
+					"trailer lines are split at CRLF", "the trailer block is split at "+strconv.Quote(sep)+", not at line ends")
+			case strings.Contains(sep, ":"):
+				nKV++
+				c.Check(sep == ":", "C04.6", FuncName(fn), "name-value-separator", call.Pos(),
+					"name and value are separated at the first ':' alone (the following space is optional on the wire)",
+					"trailer lines are split at "+strconv.Quote(sep)+": a conforming backend that writes 'grpc-status:5' (no space) is answered with 'malformed trailer' and its status is lost")
+			}
+		}
+	}
+	if nKV == 0 {
+		c.Unknown("C04.6", FuncName(dec), "name-value-separator", dec.Pos(), "no constant name/value separator found in the recognised splitting calls (separators seen: "+strconv.Quote(strings.Join(seps, "|"))+")")
+	}
+	// the value added to the trailer map is whitespace-trimmed
+	trimFns := []string{"strings.TrimSpace", "bytes.TrimSpace", "net/textproto.TrimString", "net/textproto.TrimBytes", "strings.Trim", "strings.TrimLeft", "bytes.Trim", "bytes.TrimLeft"}
+	nAdd := 0
+	for _, fn := range SortedFuncs(p.Reach(dec)) {
+		if !p.inScope(fn) || fn != dec {
+			continue
+		}
+		for _, hm := range HeaderMutations(fn) {
+			if hm.Val == nil || (hm.Op != "Add" && hm.Op != "Set" && hm.Op != "index") {
+				continue
+			}
+			nAdd++
+			trimmed := false
+			vals := append([]ssa.Value{hm.Val}, sliceLiteralElems(hm.Val)...)
+			for _, v := range vals {
+				for _, l := range Origins(v) {
+					if l.Kind == "call" && IsCallTo(l.Call, trimFns...) {
+						trimmed = true
+					}
+				}
+			}
+			c.Check(trimmed, "C04.6", FuncName(fn), "value-trimmed", hm.Instr.Pos(),
+				"the trailer value is whitespace-trimmed before it is stored", "the trailer value is stored untrimmed: 'grpc-status: 5' yields the value \" 5\" and the status does not parse")
+		}
+	}
+	if nAdd == 0 {
+		c.Unknown("C04.6", FuncName(dec), "value-trimmed", dec.Pos(), "no store into the trailer map found in the recognised form")
+	}
 }
